@@ -56,8 +56,57 @@ type VerifRequest struct {
 	Body                        []byte
 }
 
+// VerifFetchBlock: a FetchResponseBlock encoded / decoded at a protocol version.
+type VerifFetchBlock struct {
+	Block   *FetchResponseBlock
+	Version int16
+}
+
+type verifFetchBlockEnc struct {
+	b *FetchResponseBlock
+	v int16
+}
+
+func (e *verifFetchBlockEnc) encode(pe packetEncoder) error { return e.b.encode(pe, e.v) }
+
+func verifCloneRecords(r *Records) *Records {
+	c := *r
+	if c.MsgSet != nil {
+		c.MsgSet = verifCloneSet(c.MsgSet)
+	}
+	if c.RecordBatch != nil {
+		b := *c.RecordBatch
+		b.compressedRecords = nil
+		c.RecordBatch = &b
+	}
+	return &c
+}
+
+// fresh copy (no encoder caches) that keeps the aliasing between Records and the elements of RecordsSet
+func verifCloneFetchBlock(b *FetchResponseBlock) *FetchResponseBlock {
+	c := *b
+	c.RecordsSet = nil
+	if b.RecordsSet != nil {
+		c.RecordsSet = []*Records{}
+	}
+	c.Records = nil
+	for _, r := range b.RecordsSet {
+		cr := verifCloneRecords(r)
+		c.RecordsSet = append(c.RecordsSet, cr)
+		if b.Records == r {
+			c.Records = cr
+		}
+	}
+	if b.Records != nil && c.Records == nil {
+		c.Records = verifCloneRecords(b.Records)
+	}
+	return &c
+}
+
 func verifAsEncoder(x interface{}) func() encoder {
 	switch v := x.(type) {
+	case VerifFetchBlock:
+		return func() encoder { return &verifFetchBlockEnc{verifCloneFetchBlock(v.Block), v.Version} }
 	case *Record:
 		return func() encoder { c := *v; c.length = varintLengthField{}; return &c }
 	case []*Record:
@@ -218,6 +267,7 @@ type VerifDecoded struct {
 	Set     *MessageSet
 	Records *Records
 	Control *ControlRecord
+	FBlock  *FetchResponseBlock
 	Length  int32 // response header
 	Corr    int32
 	Key     int16 // request header
@@ -263,6 +313,9 @@ func VerifDecodeValue(kind string, buf []byte, start int, n int, aux []byte) (re
 	case "top":
 		res.Records = &Records{}
 		err = res.Records.decode(rd)
+	case "fblock":
+		res.FBlock = &FetchResponseBlock{}
+		err = res.FBlock.decode(rd, int16(n))
 	case "control":
 		res.Control = &ControlRecord{}
 		v := make([]byte, len(aux))
